@@ -100,7 +100,8 @@ def lazy_inverse_matrix_case(ctx: Ctx, stream: str, i: int) -> None:
 def one_case(ctx: Ctx, stream: str, i: int) -> None:
     from furax._base.core import AbstractLinearOperator
     rng = ctx.rng(stream, i)
-    for label, op in candidates(rng):
+    grid = [(f'toeplitz-grid:{gen.toeplitz_grid(3 * i + k, rng)[1]}', gen.toeplitz_grid(3 * i + k, rng)[0]) for k in range(3)]
+    for label, op in candidates(rng) + grid:
         if op is None:
             continue
         enc = Encoder()
